@@ -482,6 +482,30 @@ def _rebound_before_use(fnode, S, reads, uses):
 _PURE_CALLS = ('len', 'int', 'float', 'str', 'bool', 'isinstance', 'min', 'max', 'abs')
 
 
+_YIELDISH = ('wait', 'get', 'sleep', 'join', 'read', 'recv', 'send', 'write', 'sendall', 'readAll', 'readall', 'Open', 'Close', 'open', 'close', 'acquire', 'put', 'spawn', 'kill',
+             'switch', 'select', 'connect', 'start', 'stop', 'Set', 'set', 'Schedule', 'AsyncProcessRequest', 'AsyncProcessResponse', 'AsyncProcessResponseMessage',
+             'AsyncProcessResponseStream', 'CreateSink', 'Subscribe', 'Unsubscribe', 'Marshal', 'Unmarshal')
+
+
+def _may_rebind_self(call):
+  """Could this call change an attribute of self (directly, or by letting another greenlet run)?  A method of self, a call that is handed self, a call
+  whose name is one of the blocking / callback-running operations of this code base, or a call of a local callable.  Calls on other objects such as
+  `d.copy()`, `x.update(..)`, `functools.partial(..)`, `heapq.heappush(..)`, `Heap.Swap(..)`, constructors and pure helpers are not."""
+  f = call.func
+  if any(isinstance(a, ast.Name) and a.id == 'self' for a in list(call.args) + [k.value for k in call.keywords]):
+    return True
+  if isinstance(f, ast.Attribute):
+    if isinstance(f.value, ast.Name) and f.value.id in ('self', 'cls'):
+      return True
+    if isinstance(f.value, ast.Call) and isinstance(f.value.func, ast.Name) and f.value.func.id == 'super':
+      return True
+    return f.attr in _YIELDISH
+  if isinstance(f, ast.Name):
+    return f.id[:1].islower() and f.id not in ('len', 'int', 'float', 'str', 'bool', 'isinstance', 'min', 'max', 'abs', 'sorted', 'list', 'tuple', 'set', 'dict', 'range', 'enumerate',
+                                               'zip', 'sum', 'any', 'all', 'repr', 'pack', 'unpack', 'calcsize', 'getattr', 'hasattr', 'type', 'id', 'hash', 'iter', 'next')
+  return True
+
+
 def _uses_before_effects(blk, S, uses):
   """Every use of the temporary defined by S (an attribute read) is evaluated before anything that could rebind the attribute:
   in evaluation order after S no call completes, no attribute is stored and no loop is entered before the last use."""
@@ -503,7 +527,7 @@ def _uses_before_effects(blk, S, uses):
       remaining.discard(id(n))
       if state['dirty']:
         state['ok'] = False
-    if isinstance(n, ast.Call) and not (isinstance(n.func, ast.Name) and n.func.id in _PURE_CALLS):
+    if isinstance(n, ast.Call) and not (isinstance(n.func, ast.Name) and n.func.id in _PURE_CALLS) and _may_rebind_self(n):
       state['dirty'] = True
     if isinstance(n, (ast.Yield, ast.YieldFrom, ast.Await)):
       state['dirty'] = True
@@ -834,6 +858,17 @@ def split_withs(tree, stats):
 
 def _is_assign_to(st, name):
   return isinstance(st, ast.Assign) and len(st.targets) == 1 and isinstance(st.targets[0], ast.Name) and st.targets[0].id == name
+
+
+def drop_self_assignments(fnode, stats):
+  """`x = x` (left behind when a helper that returns its own argument is inlined) does nothing."""
+  for b in _blocks(fnode):
+    for st in list(b):
+      if isinstance(st, ast.Assign) and len(st.targets) == 1 and isinstance(st.targets[0], ast.Name) and isinstance(st.value, ast.Name) and st.value.id == st.targets[0].id:
+        b.remove(st)
+        if not b:
+          b.append(ast.Pass())
+        stats['temps'] = stats.get('temps', 0) + 1
 
 
 def merge_flag_or(fnode, base_names, stats):
@@ -1374,6 +1409,52 @@ def flatten_genexp_loops(fnode, stats):
   ast.fix_missing_locations(fnode)
 
 
+PACKAGE_SIGNATURES = {}    # callable name -> list of positional parameter name lists (set by restore.restore_package)
+
+
+def keywords_to_positional(fnode, bsrc, stats):
+  """f(a, k=v) -> f(a, v): a keyword argument becomes positional again when the reference function calls the same callee without that keyword
+  and every definition of that name in the package has the parameter at the same position (all positions before it are filled)."""
+  base_kw = {}
+  base_calls = set()
+  for c in ast.walk(bsrc):
+    if isinstance(c, ast.Call):
+      nm = c.func.attr if isinstance(c.func, ast.Attribute) else c.func.id if isinstance(c.func, ast.Name) else None
+      if nm:
+        base_calls.add(nm)
+        for k in c.keywords:
+          if k.arg:
+            base_kw.setdefault(nm, set()).add(k.arg)
+  for c in ast.walk(fnode):
+    if not (isinstance(c, ast.Call) and c.keywords) or any(k.arg is None for k in c.keywords) or any(isinstance(a, ast.Starred) for a in c.args):
+      continue
+    nm = c.func.attr if isinstance(c.func, ast.Attribute) else c.func.id if isinstance(c.func, ast.Name) else None
+    sigs = PACKAGE_SIGNATURES.get(nm)
+    if not nm or not sigs or nm not in base_calls:
+      continue
+    changed = True
+    while changed and c.keywords:
+      changed = False
+      pos = len(c.args)
+      # the parameter at the next free position, if all definitions agree on it
+      names = set(sg[pos] if pos < len(sg) else None for sg in sigs)
+      if len(names) != 1 or None in names:
+        break
+      pn = list(names)[0]
+      kw = [k for k in c.keywords if k.arg == pn]
+      if not kw or pn in base_kw.get(nm, set()):
+        break
+      # evaluation order: keywords are evaluated in call order; moving the FIRST keyword to the end of the positionals keeps it
+      if c.keywords[0] is not kw[0]:
+        if not all(_is_pure(k.value) for k in c.keywords[:c.keywords.index(kw[0]) + 1]):
+          break
+      c.args.append(kw[0].value)
+      c.keywords.remove(kw[0])
+      stats['kw_positional'] = stats.get('kw_positional', 0) + 1
+      changed = True
+  ast.fix_missing_locations(fnode)
+
+
 def base_source_fn(rel, qualname):
   src = load_baseline().get('sources', {}).get(rel + '::' + qualname)
   if not src:
@@ -1498,11 +1579,13 @@ def rename_function(fnode, rel, qualname, base_funcs, stats):
     base_names = set(base.get('params', [])) | set(b[0] for b in base.get('locals', []))
     bsrc = base_source_fn(rel, qualname)
     try:
+      drop_self_assignments(fnode, stats)
       restore_while_tests(fnode, set(base.get('whiles', [])), stats)
       merge_flag_or(fnode, base_names, stats)
       split_joined_flag(fnode, base_names, stats)
       loop_flag_to_break(fnode, base_names, stats)
       if bsrc is not None:
+        keywords_to_positional(fnode, bsrc, stats)
         box_nonlocals(fnode, bsrc, stats)
         lower_new_next(fnode, bsrc, stats)
         restore_tail_recursion(fnode, bsrc, stats)
@@ -1510,6 +1593,10 @@ def rename_function(fnode, rel, qualname, base_funcs, stats):
       return_flag_elim(fnode, base_names, stats)
     except Exception as e:
       stats['flag_error'] = repr(e)
+    try:
+      split_new_tuple_assigns(fnode, set(base.get('tuple_assigns', [])), stats)
+    except Exception as e:
+      stats['tuple_error'] = repr(e)
     for _pass in range(2):
       before = stats.get('temps', 0)
       inline_new_temporaries(fnode, base_names, stats)
@@ -2022,8 +2109,8 @@ def inline_new_helpers(tree, rel, inventory, stats):
     new = {}
     for d in defs:
       q = prefix + d.name
-      if q in known or not d.name.startswith('_') or d.name.startswith('__') and d.name.endswith('__'):
-        continue
+      if q in known or d.name.startswith('__') and d.name.endswith('__'):
+        continue     # (a function the reference tree does not have is a helper whatever its name: nothing of the reference calls it)
       if d.decorator_list and not all(ast.unparse(x) in ('staticmethod', 'classmethod') for x in d.decorator_list):
         continue
       if any(isinstance(n, (ast.Yield, ast.YieldFrom, ast.Await)) for n in own_nodes(d)):
